@@ -21,8 +21,8 @@ func init() {
 var errC13 = errors.New("c13: validator failure")
 
 func genC13(rng *rand.Rand, n int, emit func(Case), dist map[string]int) {
-	creds := []string{"joe:secret", "joe:wrong:secret", "joe:wrong", ":secret", "joe:", "nocolon", "", "jo\xffe:secret", "boom:x", "a:b:c:secret", "joe:secret:", "ann:pw1", "ann:secret"}
-	keys := []string{"valid-key", "other-key", "boom", "", "Valid-Key", "valid-key ", "k2"}
+	creds := []string{"joe:secret", "joe:wrong:secret", "joe:wrong", ":secret", "joe:", "nocolon", "", "jo\xffe:secret", "boom:x", "boomok:x", "a:b:c:secret", "joe:secret:", "ann:pw1", "ann:secret"}
+	keys := []string{"valid-key", "other-key", "boom", "boomok", "", "Valid-Key", "valid-key ", "k2"}
 	lookups := []string{"header:Authorization", "header:X-Api-Key", "query:key", "form:key", "cookie:key", "header:Authorization,query:key", "query:key,cookie:key", "header:X-Api-Key:Token ", "form:key,header:Authorization"}
 	e := echo.New()
 	for it := 0; it < n; {
@@ -30,6 +30,9 @@ func genC13(rng *rand.Rand, n int, emit func(Case), dist map[string]int) {
 		bval := func(u, p string) (bool, error) {
 			if u == "boom" {
 				return false, errC13
+			}
+			if u == "boomok" {
+				return true, errC13 // "valid" together with an error: the error wins, the handler must not run
 			}
 			switch vmode {
 			case 0:
@@ -49,12 +52,24 @@ func genC13(rng *rand.Rand, n int, emit func(Case), dist map[string]int) {
 			if k == "boom" {
 				return false, errC13
 			}
+			if k == "boomok" {
+				return true, errC13
+			}
 			return k == "valid-key" || vmode == 1 && k == "k2", nil
 		}
 		lk := lookups[rng.Intn(len(lookups))]
 		var kcalls []string
 		ranK := false
-		kmw := middleware.KeyAuthWithConfig(middleware.KeyAuthConfig{KeyLookup: lk, Validator: func(k string, c echo.Context) (bool, error) {
+		// the scheme in front of the key in the Authorization header: default "Bearer"; a configured one with or without a trailing blank means the same
+		scheme := []string{"", "", "Token", "Token ", "ApiKey"}[rng.Intn(5)]
+		authPfx := scheme
+		if authPfx == "" {
+			authPfx = "Bearer"
+		}
+		if !strings.HasSuffix(authPfx, " ") {
+			authPfx += " "
+		}
+		kmw := middleware.KeyAuthWithConfig(middleware.KeyAuthConfig{KeyLookup: lk, AuthScheme: scheme, Validator: func(k string, c echo.Context) (bool, error) {
 			kcalls = append(kcalls, k)
 			return kval(k)
 		}})(func(c echo.Context) error { ranK = true; return nil })
@@ -114,7 +129,7 @@ func genC13(rng *rand.Rand, n int, emit func(Case), dist map[string]int) {
 				for _, h := range hdrs {
 					req.Header.Add(echo.HeaderAuthorization, h)
 				}
-				c := e.NewContext(req, httptest.NewRecorder())
+				c := recycledContext(e, req, httptest.NewRecorder())
 				bcalls, ranB = nil, false
 				code := -1
 				panicked := false
@@ -239,7 +254,7 @@ func genC13(rng *rand.Rand, n int, emit func(Case), dist map[string]int) {
 						if len(parts) > 2 {
 							pfx = parts[2]
 						} else if parts[1] == "Authorization" {
-							pfx = "Bearer "
+							pfx = authPfx
 						}
 						switch rng.Intn(6) {
 						case 0:
@@ -278,7 +293,7 @@ func genC13(rng *rand.Rand, n int, emit func(Case), dist map[string]int) {
 			req := build()
 			probe := build() // identical request to read what is present at each location
 			probe.ParseMultipartForm(32 << 20)
-			c := e.NewContext(req, httptest.NewRecorder())
+			c := recycledContext(e, req, httptest.NewRecorder())
 			kcalls, ranK = nil, false
 			code := -1
 			panicked := false
@@ -329,7 +344,7 @@ func genC13(rng *rand.Rand, n int, emit func(Case), dist map[string]int) {
 					if len(parts) > 2 {
 						pfx = parts[2]
 					} else if parts[1] == "Authorization" {
-						pfx = "Bearer "
+						pfx = authPfx
 					}
 					vs := probe.Header.Values(parts[1])
 					lks = append(lks, L(I(0), S(pfx), LS(vs)))
